@@ -14,9 +14,15 @@ import Ark.Proofs.ExtB
   These are established for the prime field (`primeD_lawful`, `primeD_primesLawful`), for the wrappers
   (`Fp2Cfg.default_wrap_lawful`, …) and are *preserved* by the templates
   (`quad_fieldD_base_lawful`, `cubic_fieldD_base_lawful`, `quad_primes_lawful`, …), so the results
-  apply to every layer of a tower.  Powers `a ^ n` on an extension are taken in the commutative ring
-  `Quad.commRing` / `Cubic.commRing` whose multiplication is *definitionally* the model's
-  `Quad.mul cfg B` / `Cubic.mul cfg`.
+  apply to every layer of a tower (`fp4_frob_pow`, `fp12_cyc_exp…` are two- and three-layer instances).
+  Powers `a ^ n` on an extension are taken in the commutative ring `Quad.commRing` /
+  `Cubic.commRing` whose multiplication is *definitionally* the model's `Quad.mul cfg B` /
+  `Cubic.mul cfg` (`quad_ring_mul`, `cubic_ring_mul`).
+
+  Sharpness is recorded next to the positive results: `quad_inverse_square_nonresidue`
+  (β a square ⇒ a non-zero element without inverse), `cubic_inverse_panics_of_cube` (β a cube ⇒ the
+  `unwrap` panics), `fp2_frob_panics_of_short_table` (short table ⇒ index panic), and the `F₇`
+  example of a unitary element outside the cyclotomic subgroup on which Granger–Scott is wrong.
 -/
 set_option linter.style.haveILetI false
 set_option linter.unusedSectionVars false
